@@ -7,6 +7,7 @@ import (
 	"fmt"
 	"math"
 	"math/rand"
+	"os"
 	"strings"
 
 	"verif/internal/fw"
@@ -139,7 +140,13 @@ func genCase(r *rand.Rand, i int, tier string) any {
 	switch slot {
 	case 12, 13:
 		// overflow-wrap: compared on plain text (see notes: D14 and the is-line-start rule)
-		ft = features{Hyphen: ft.Hyphen, MultiSp: ft.MultiSp, Br: ft.Br}
+		// overflow-wrap: plain text, or top-level inline boxes holding one text node each (with
+		// spacing and own font sizes), inline-blocks and <br> between them; no glue across box
+		// edges, no nesting, no indent (see notes: D14, D17, D18)
+		sp := i%8 != 0 && (ft.Spans || r.Intn(2) == 0)
+		ft = features{Hyphen: ft.Hyphen, MultiSp: ft.MultiSp, Br: ft.Br, IB: ft.IB, Spans: sp, Leaf: true}
+		ft.Spacing = sp && r.Intn(2) == 0
+		ft.FontSize = sp && r.Intn(4) == 0
 		ws = wpick(r, "normal", 3, "pre-line", 1)
 		ow = pick(r, "anywhere", "break-word")
 	case 14, 15:
@@ -243,6 +250,9 @@ func checkAhem(in *c11In) fw.Result {
 		if sig, msg := compare(m, float64(W), exp, obs); sig != "" {
 			res.Fail(sig, fmt.Sprintf("container width %dpx: %s\n  expected lines: %s\n  observed lines: %s\n  %s", W, msg, expText(exp), obsText(obs), witness(&in.Para, W)))
 			res.Count("blocks_failed", 1)
+			if os.Getenv("C11_DEBUG") != "" {
+				fmt.Fprintf(os.Stderr, "DEBUG %s W=%d %s\n   exp %s\n   obs %s\n   %s\n", sig, W, msg, expText(exp), obsText(obs), in.Para.Doc("Ahem", []int{W})[strings.Index(in.Para.Doc("Ahem", []int{W}), "<body>"):])
+			}
 			continue
 		}
 		res.Count("blocks_compared", 1)
